@@ -73,6 +73,18 @@ CHECKS['C02'] = dict(text='On the same families, with payloads of ten value type
                   'that the seven rendering entry points return the same SQL and values, that rendering twice gives the same result and that the statement is structurally unchanged (crate PartialEq) after rendering.',
              note=TRUST_M + 'Execution on a live engine ("return the same rows") is outside the technique; textual identity modulo literal substitution implies it. The correctness of the literal itself is C03.',
              technique='symbolic execution of rustc MIR with element-wise symbolic text equality decided by z3', ref='6/C02', engine=ENGINE_M)
+CHECKS['C08'] = dict(text='Bounded symbolic execution of the whole MySQL and Postgres renderers (build and to_string) over the statement families incl. the dialect-specific toggles (ON DUPLICATE KEY UPDATE, UPDATE..JOIN..ON, VALUES ROW, index hints, NULLS emulation; DISTINCT ON, TABLESAMPLE, locking, '
+                  'SEARCH/CYCLE, MATERIALIZED, ON CONFLICT .. DO UPDATE .. WHERE, RETURNING): on every path a clause-skeleton recogniser of the dialect (nested sub-selects recursively) must accept the text and recover exactly the clauses the builder was given, each once, in grammar order, items in call order, identified by the identifiers they mention.',
+             note=TRUST_M + 'Oracle: props/sqlskel.py, written from the MySQL 8.0 / PostgreSQL 16 statement synopses. Clauses a dialect lacks are not requested from it. Known findings: named WINDOW clause, MySQL multi-table UPDATE, MySQL DO NOTHING without keys, MySQL OFFSET without LIMIT.',
+             technique='symbolic execution of rustc MIR (clause-combination forking) with a reference clause recogniser deciding each path', ref='6/C08', engine=ENGINE_M)
+CHECKS['C07'] = dict(text='STRUCTURAL PART ONLY. The C08 harness with the SQLite grammar: every SELECT / INSERT (upsert, RETURNING) / UPDATE / DELETE / WITH of the families is accepted by a recogniser of the SQLite statement grammar and the recovered clause skeleton equals the builder calls (every clause once, SQLite order, items in call order, nothing dropped), inline and parameterised. '
+                  'Execution on a real SQLite engine (same rows, same table contents) cannot be decided by symbolic execution and is not claimed.',
+             note=TRUST_M + 'Trusted: my reading of the SQLite railroad diagrams in props/sqlskel.py. Known findings: named WINDOW clause, LIMIT inside a compound-select member.',
+             technique='symbolic execution of rustc MIR (clause-combination forking) with a reference clause recogniser deciding each path', ref='6/C07', engine=ENGINE_M)
+CHECKS['C09'] = dict(text='STRUCTURAL PART ONLY. For the portable sub-families the three backends are rendered along the same symbolic path; after the documented lexical map (identifier quotes, placeholder style, set-operation parentheses, VALUES ROW, function-name substitutions, MySQL NULLS emulation) the token sequences must be identical and the bound values must be the same terms in the same order (z3 / structural equality). '
+                  'Result equality on live engines and the semantic equivalence of each documented substitution are outside the technique and not claimed.',
+             note=TRUST_M + 'Trusted: the lexical map in props/c09.py and the equivalence of the documented substitutions themselves.',
+             technique='symbolic execution of rustc MIR on three backends per path, token-level comparison after a lexical map, term identity of bound values', ref='6/C09', engine=ENGINE_M)
 NA = {}
 def load_props():
     return [json.loads(l) for l in open(os.path.join(V, 'properties.jsonl'))]
